@@ -16,15 +16,16 @@ Lemma ren_eq ix l ks :
   let ks' := map (ren ix) ks in
   if is_kind "Lifetime" l || is_kind "PredLifetime" l then
     Node (rename_label l (new_name ix PLt (ld l))) ks'
-  else if is_kind "TPath" l then
+  else if is_kind "TPath" l || is_kind "EPath" l then
     match ks' with
     | [q'; Node lp (Node ls sargs :: rest)] =>
-        if is_kind "Path" lp && is_kind "Seg" ls then
+        if is_kind "Path" lp && is_kind "Seg" ls && no_qself q' then
         match new_name ix PTy (ld ls) with
         | Some n =>
             match rest with
-            | [] => mk_ty_param n
-            | _ => Node (K "TPath" "") [qself0 (mk_ty_param n); Node (K "Path" "::") rest]
+            | [] => if is_kind "TPath" l then mk_ty_param n else mk_ex_param n
+            | _ => Node (K (if is_kind "TPath" l then "TPath" else "EPath") "")
+                        [qself0 (mk_ty_param n); Node (K "Path" "::") rest]
             end
         | None =>
             match first_seg (Node lp (Node ls sargs :: rest)) with
@@ -39,25 +40,6 @@ Lemma ren_eq ix l ks :
         else Node l ks'
     | _ => Node l ks'
     end
-  else if is_kind "EPath" l then
-    match ks' with
-    | [q'; Node lp (Node ls sargs :: rest)] =>
-        if is_kind "Path" lp && is_kind "Seg" ls then
-        match new_name ix PTy (ld ls) with
-        | Some n =>
-            match rest with
-            | [] => mk_ex_param n
-            | _ => Node (K "EPath" "") [qself0 (mk_ty_param n); Node (K "Path" "::") rest]
-            end
-        | None =>
-            match new_name ix PCt (ld ls) with
-            | Some n => Node l [q'; Node lp (Node (K "Seg" n) [Node (K "ANone" "") []] :: rest)]
-            | None => Node l ks'
-            end
-        end
-        else Node l ks'
-    | _ => Node l ks'
-    end
   else Node l ks'.
 Proof. reflexivity. Qed.
 
@@ -66,9 +48,10 @@ Lemma kept_eq ix l ks :
   let below := flat_map (kept ix) ks in
   if is_kind "Lifetime" l || is_kind "PredLifetime" l then
     match new_name ix PLt (ld l) with Some _ => below | None => (PLt, ld l) :: below end
-  else if is_kind "TPath" l then
+  else if is_kind "TPath" l || is_kind "EPath" l then
     match ks with
     | [q; p] =>
+        if no_qself q then
         match first_seg p with
         | Some (n, bare) =>
             match new_name ix PTy n with
@@ -79,19 +62,7 @@ Lemma kept_eq ix l ks :
             end
         | None => below
         end
-    | _ => below
-    end
-  else if is_kind "EPath" l then
-    match ks with
-    | [q; p] =>
-        match first_seg p with
-        | Some (n, _) =>
-            match new_name ix PTy n, new_name ix PCt n with
-            | None, None => (PTy, n) :: below
-            | _, _ => below
-            end
-        | None => below
-        end
+        else below
     | _ => below
     end
   else below.
@@ -124,6 +95,14 @@ Lemma ren_generic ix l ks :
   ren ix (Node l ks) = Node l (map (ren ix) ks).
 Proof. intros H1 H2 H3. rewrite ren_eq, H1, H2, H3. reflexivity. Qed.
 
+Lemma is_kind_if_path l : is_kind "TPath" l || is_kind "EPath" l = true ->
+  lk (K (if is_kind "TPath" l then "TPath" else "EPath") "") = lk l.
+Proof.
+  intro H. destruct (is_kind "TPath" l) eqn:Et.
+  - apply is_kind_eq in Et. rewrite Et. reflexivity.
+  - cbn [orb] in H. apply is_kind_eq in H. rewrite H. reflexivity.
+Qed.
+
 Lemma ren_of_kind ix k l ks :
   is_kind k l = true ->
   String.eqb k "Lifetime" = false -> String.eqb k "PredLifetime" = false ->
@@ -141,21 +120,17 @@ Proof.
   destruct t as [l ks]. rewrite ren_eq. cbv zeta.
   destruct (is_kind "Lifetime" l || is_kind "PredLifetime" l).
   { destruct (new_name ix PLt (ld l)); reflexivity. }
-  destruct (is_kind "TPath" l) eqn:Et.
-  { apply is_kind_eq in Et. cbn [tlabel]. rewrite Et.
-    destruct (map (ren ix) ks) as [|q' [|[lp [|[ls sargs] rest]] [|]]]; cbn [tlabel]; auto.
-    destruct (is_kind "Path" lp && is_kind "Seg" ls); cbn [tlabel]; auto.
-    destruct (new_name ix PTy (ld ls)).
-    - destruct rest; reflexivity.
-    - destruct (first_seg _) as [[? [|]]|]; cbn [tlabel]; auto.
-      destruct (new_name ix PCt (ld ls)); cbn [tlabel]; auto. }
-  destruct (is_kind "EPath" l) eqn:Ee; [|reflexivity].
-  apply is_kind_eq in Ee. cbn [tlabel]. rewrite Ee.
+  destruct (is_kind "TPath" l || is_kind "EPath" l) eqn:Ep; [|reflexivity].
+  pose proof (is_kind_if_path l Ep) as Hk. cbn [tlabel].
   destruct (map (ren ix) ks) as [|q' [|[lp [|[ls sargs] rest]] [|]]]; cbn [tlabel]; auto.
-  destruct (is_kind "Path" lp && is_kind "Seg" ls); cbn [tlabel]; auto.
+  destruct (is_kind "Path" lp && is_kind "Seg" ls && no_qself q'); cbn [tlabel]; auto.
   destruct (new_name ix PTy (ld ls)).
-  - destruct rest; reflexivity.
-  - destruct (new_name ix PCt (ld ls)); cbn [tlabel]; auto.
+  - destruct rest; [|exact Hk].
+    destruct (is_kind "TPath" l) eqn:Et.
+    + apply is_kind_eq in Et. rewrite Et. reflexivity.
+    + cbn [orb] in Ep. apply is_kind_eq in Ep. rewrite Ep. reflexivity.
+  - destruct (first_seg _) as [[? [|]]|]; cbn [tlabel]; auto.
+    destruct (new_name ix PCt (ld ls)); cbn [tlabel]; auto.
 Qed.
 
 Lemma is_kind_ren ix k t : is_kind k (tlabel (ren ix t)) = is_kind k (tlabel t).
@@ -224,15 +199,15 @@ Qed.
 
 Lemma ren_path_none ix l q p :
   is_kind "Lifetime" l || is_kind "PredLifetime" l = false ->
-  first_seg (ren ix p) = None ->
+  first_seg (ren ix p) = None \/ no_qself q = false ->
   ren ix (Node l [q; p]) = Node l [ren ix q; ren ix p].
 Proof.
   intros El Hn. rewrite ren_eq, El. cbv zeta. cbn [map].
-  apply first_seg_none_not_shaped in Hn.
-  destruct (ren ix p) as [lp' [|[ls' sargs'] rest']].
-  - destruct (is_kind "TPath" l); [reflexivity|]. destruct (is_kind "EPath" l); reflexivity.
-  - unfold shaped in Hn. rewrite Hn.
-    destruct (is_kind "TPath" l); [reflexivity|]. destruct (is_kind "EPath" l); reflexivity.
+  destruct (is_kind "TPath" l || is_kind "EPath" l); [|reflexivity].
+  destruct (ren ix p) as [lp' [|[ls' sargs'] rest']] eqn:Ep; [reflexivity|].
+  destruct Hn as [Hn|Hn].
+  - apply first_seg_none_not_shaped in Hn. unfold shaped in Hn. rewrite Hn. reflexivity.
+  - unfold no_qself in *. rewrite is_kind_ren, Hn, andb_false_r. reflexivity.
 Qed.
 
 Section CanonAlpha.
@@ -290,20 +265,28 @@ Section CanonAlpha.
     (untouched q -> ren ix' (alpha q) = ren ix q) ->
     (untouched p -> ren ix' (alpha p) = ren ix p) ->
     untouched (Node l [q; p]) ->
-    ren ix' (Node l [alpha q; rename_first_seg rt (alpha p)]) = ren ix (Node l [q; p]).
+    ren ix' (if no_qself (alpha q) then Node l [alpha q; rename_first_seg rt (alpha p)]
+             else Node l [alpha q; alpha p]) = ren ix (Node l [q; p]).
   Proof.
     intros El Ep IHq IHp Hu.
     assert (Hq : ren ix' (alpha q) = ren ix q).
     { apply IHq. apply (untouched_kid l [q; p]); [exact Hu|left; reflexivity]. }
     assert (Hp : ren ix' (alpha p) = ren ix p).
     { apply IHp. apply (untouched_kid l [q; p]); [exact Hu|right; left; reflexivity]. }
+    rewrite (no_qself_alpha rl rt).
+    destruct (no_qself q) eqn:Enq.
+    2:{ (* after a qualified self nothing is looked at *)
+      rewrite (ren_path_none ix' l (alpha q) (alpha p) El)
+        by (right; rewrite (no_qself_alpha rl rt); exact Enq).
+      rewrite (ren_path_none ix l q p El) by (right; exact Enq).
+      rewrite Hq, Hp. reflexivity. }
     destruct (first_seg p) as [[n bare]|] eqn:Efs.
     2:{ (* not path-shaped: the renaming does not look at it *)
       rewrite (rename_first_seg_none (alpha p)) by (rewrite (first_seg_alpha rl rt); exact Efs).
       rewrite (ren_path_none ix' l (alpha q) (alpha p) El).
-      - rewrite (ren_path_none ix l q p El) by (apply first_seg_ren_none; exact Efs).
+      - rewrite (ren_path_none ix l q p El) by (left; apply first_seg_ren_none; exact Efs).
         rewrite Hq, Hp. reflexivity.
-      - rewrite Hp. apply first_seg_ren_none. exact Efs. }
+      - left. rewrite Hp. apply first_seg_ren_none. exact Efs. }
     destruct p as [lp [|[ls sargs] rest]]; [discriminate|].
     rewrite first_seg_node in Efs.
     destruct (shaped lp ls) eqn:Esh; [|discriminate].
@@ -315,14 +298,16 @@ Section CanonAlpha.
     rewrite (ren_shaped ix' lp ls _ _ Esh0) in Hp.
     rewrite (ren_shaped ix lp ls _ _ Esh0) in Hp.
     inversion Hp as [[HS HR]].
-    rewrite (ren_eq ix' l), (ren_eq ix l), El. cbv zeta. cbn [map].
+    rewrite (ren_eq ix' l), (ren_eq ix l), El, Ep. cbv zeta. cbn [map].
     rewrite Hq.
     rewrite (ren_shaped ix' lp (K (lk ls) (rt (ld ls))) _ _ Esh').
     rewrite (ren_shaped ix lp ls _ _ Esh0).
     rewrite HS, HR.
     set (S := map (ren ix) sargs). set (R := map (ren ix) rest). set (Q := ren ix q).
+    assert (EQ : no_qself Q = true).
+    { unfold Q, no_qself. rewrite is_kind_ren. exact Enq. }
     assert (Ec : is_kind "Path" lp && is_kind "Seg" (K (lk ls) (rt (ld ls))) = true) by exact Esh.
-    rewrite Ec, Esh. cbn [ld K].
+    rewrite Ec, Esh, EQ. cbn [andb ld K].
     change (rt (ld ls)) with (rk PTy (ld ls)). rewrite nn.
     assert (Hbare' : forall d, first_seg (Node lp (Node (K (lk ls) d) S :: R)) = Some (d, bare)).
     { intro d. rewrite first_seg_node. change (shaped lp (K (lk ls) d)) with (shaped lp ls). rewrite Esh0.
@@ -333,23 +318,16 @@ Section CanonAlpha.
     { rewrite <- (label_eta ls) at 1. apply Hbare'. }
     (* what the block says about this occurrence *)
     pose proof Hu as Hu0. unfold untouched in Hu0. rewrite kept_eq in Hu0. cbv zeta in Hu0.
-    rewrite El in Hu0. rewrite first_seg_node, Esh0, Hbare in Hu0.
-    destruct (is_kind "TPath" l) eqn:Et.
-    - destruct (new_name ix PTy (ld ls)) eqn:E1; [reflexivity|].
-      rewrite (Hbare' (rk PTy (ld ls))), Hbare0.
-      destruct bare.
-      + change (rk PTy (ld ls)) with (rk PCt (ld ls)). rewrite nn.
-        destruct (new_name ix PCt (ld ls)) eqn:E2; [reflexivity|].
-        assert (Hfix : rk PTy (ld ls) = ld ls) by (apply Hu0; left; reflexivity).
-        change (rk PCt (ld ls)) with (rk PTy (ld ls)). rewrite Hfix, label_eta. reflexivity.
-      + assert (Hfix : rk PTy (ld ls) = ld ls) by (apply Hu0; left; reflexivity).
-        rewrite Hfix, label_eta. reflexivity.
-    - cbn [orb] in Ep. rewrite Ep. rewrite Ep in Hu0.
-      destruct (new_name ix PTy (ld ls)) eqn:E1; [reflexivity|].
-      change (rk PTy (ld ls)) with (rk PCt (ld ls)). rewrite nn.
+    rewrite El, Ep, Enq in Hu0. rewrite first_seg_node, Esh0, Hbare in Hu0.
+    destruct (new_name ix PTy (ld ls)) eqn:E1; [reflexivity|].
+    rewrite (Hbare' (rk PTy (ld ls))), Hbare0.
+    destruct bare.
+    - change (rk PTy (ld ls)) with (rk PCt (ld ls)). rewrite nn.
       destruct (new_name ix PCt (ld ls)) eqn:E2; [reflexivity|].
       assert (Hfix : rk PTy (ld ls) = ld ls) by (apply Hu0; left; reflexivity).
       change (rk PCt (ld ls)) with (rk PTy (ld ls)). rewrite Hfix, label_eta. reflexivity.
+    - assert (Hfix : rk PTy (ld ls) = ld ls) by (apply Hu0; left; reflexivity).
+      rewrite Hfix, label_eta. reflexivity.
   Qed.
 
   Theorem ren_alpha t : untouched t -> ren ix' (alpha t) = ren ix t.
@@ -365,16 +343,14 @@ Section CanonAlpha.
       cbn [rename_label]. rewrite (Hu PLt (ld l)) by (left; reflexivity). rewrite label_eta. reflexivity. }
     destruct (is_kind "TPath" l || is_kind "EPath" l) eqn:Ep.
     { destruct ks as [|q [|p [|x ks]]].
-      - cbn [map]. rewrite (ren_eq ix'), (ren_eq ix), El. cbv zeta. cbn [map].
-        destruct (is_kind "TPath" l); [reflexivity|]. destruct (is_kind "EPath" l); reflexivity.
-      - cbn [map] in *. rewrite (ren_eq ix'), (ren_eq ix), El. cbv zeta. cbn [map].
-        inversion Hmap as [[Hq]]. rewrite Hq.
-        destruct (is_kind "TPath" l); [reflexivity|]. destruct (is_kind "EPath" l); reflexivity.
+      - cbn [map]. rewrite (ren_eq ix'), (ren_eq ix), El, Ep. reflexivity.
+      - cbn [map] in *. rewrite (ren_eq ix'), (ren_eq ix), El, Ep. cbv zeta. cbn [map].
+        inversion Hmap as [[Hq]]. rewrite Hq. reflexivity.
       - cbn [map]. inversion IH as [|? ? IHq IH1]; subst. inversion IH1 as [|? ? IHp _]; subst.
         apply ren_alpha_path; assumption.
       - change (map alpha (q :: p :: x :: ks)) with (alpha q :: alpha p :: alpha x :: map alpha ks).
         cbv iota beta.
-        rewrite (ren_eq ix'), (ren_eq ix), El. cbv zeta.
+        rewrite (ren_eq ix'), (ren_eq ix), El, Ep. cbv zeta.
         change (alpha q :: alpha p :: alpha x :: map alpha ks) with (map alpha (q :: p :: x :: ks)).
         rewrite Hmap. reflexivity. }
     apply orb_false_iff in Ep. destruct Ep as [E1 E2].
